@@ -185,6 +185,7 @@ class Scenario:
         self.bad_vanish_tests = []         # vanishing predicates that are not "|x| <= atol at every volume"
         self.lineq_syms = None
         self.probes = []
+        self.misfit_axis = None            # set when a hand-computed misfit is summed along the wrong axis
 
 
 def run_fill(model, sc: Scenario, ctx=None):
@@ -352,7 +353,9 @@ def run_fill(model, sc: Scenario, ctx=None):
         resid = sc.resid
         if resid == "atol":
             resid = ev_ref["atol"]
-        return Tup([x, num_const(resid), sp.Integer(sc.rank), sp.Symbol("SV")])
+        # numpy.linalg.lstsq: "residuals ... if the rank of a is < N or M <= N, this is an empty array" (installed docstring)
+        r_ = EmptyResid() if sc.rank < A.shape[1] else num_const(resid)
+        return Tup([x, r_, sp.Integer(sc.rank), sp.Symbol("SV")])
 
     MAXV, MINV, ABSV = sp.Function("MAXV"), sp.Function("MINV"), sp.Function("ABSVOL")
 
@@ -388,6 +391,12 @@ def run_fill(model, sc: Scenario, ctx=None):
             if name == "transpose":
                 return BoundLib("solmat.transpose", self)
             raise ev.err(f"solution matrix attribute {name}", node, mod)
+
+        def sym_binop(self, ev, op, other, reflected, n, mod):
+            if isinstance(op, ast.MatMult) and reflected and isinstance(other, ArrV) and len(other.shape) == 2 and other.shape[1] == len(self.rows) \
+                    and sc.lstsq is not None and other is sc.lstsq[0]:
+                return MisfitRows("ax")             # the system matrix applied to the solution: one row per equation
+            raise ev.err("arithmetic on the solution matrix", n, mod)
 
         def sym_compare(self, ev, op, other, reflected, n, mod):
             import ast as _ast
@@ -544,7 +553,49 @@ def run_fill(model, sc: Scenario, ctx=None):
             raise ev.err(f"residuals attribute {name}", node, mod)
 
         def sym_subscript(self, ev, idx, n, mod):
+            from .sym import SliceV
+            if isinstance(idx, SliceV) and idx.hi is not None and is_sym(idx.hi) and idx.hi == 0 and idx.lo is None:
+                return EmptyResid()                 # residuals[:0]: the empty vector lstsq reports for a rank-deficient system
             return self.value
+
+    class EmptyResid:
+        """an empty residual vector: every comparison over it is vacuous (numpy.any -> False)"""
+
+        def sym_compare(self, ev, op, other, reflected, n, mod):
+            return False
+
+        def sym_iter(self, ev, n, mod):
+            return []
+
+        def sym_any(self, ev, n, mod):
+            return False
+
+    class MisfitRows:
+        """a @ x (- b) (** 2): one row per equation of the system, each a vector over the volumes; summed over the ROWS (axis 0) it is the
+        per-volume squared misfit numpy.linalg.lstsq reports; summed over the volumes (axis 1) it is a per-equation number, another quantity"""
+
+        def __init__(self, stage):
+            self.stage = stage          # 'ax', 'diff', 'sq'
+
+        def sym_binop(self, ev, op, other, reflected, n, mod):
+            if isinstance(op, ast.Sub) and not reflected and self.stage == "ax" and isinstance(other, DataMat):
+                return MisfitRows("diff")
+            if isinstance(op, ast.Pow) and not reflected and self.stage == "diff" and is_sym(other) and other == 2:
+                return MisfitRows("sq")
+            raise ev.err("arithmetic on the misfit of the linear system that is not (a @ x - b) ** 2", n, mod)
+
+    def np_sum(ev, a, k):
+        v = a[0]
+        axis = k.get("axis", a[1] if len(a) > 1 else None)
+        if isinstance(v, MisfitRows) and v.stage == "sq" and axis is not None:
+            resid = sc.resid
+            if resid == "atol":
+                resid = ev_ref["atol"]
+            if _const_int(axis) % 2 == 0:
+                return num_const(resid)                     # per volume: the residuals of lstsq
+            sc.misfit_axis = "summed over the volumes for each equation (axis=1)"
+            return num_const(resid)
+        raise AnalysisError("numpy.sum of this operand is not modelled in fill_cij")
 
     def allclose(ev, a, k):
         x = a[0]
@@ -673,7 +724,7 @@ def run_fill(model, sc: Scenario, ctx=None):
         "solmat.max": solmat_reduce("max"), "solmat.min": solmat_reduce("min"), "numpy.abs": solmat_abs, "numpy.absolute": solmat_abs, "numpy.fabs": solmat_abs,
         "predlist.all": predlist_all,
         "numpy.concatenate": concatenate, "numpy.vstack": concatenate, "numpy.row_stack": concatenate, "numpy.repeat": repeat, "numpy.tile": tile, "sympy.matrix2numpy": matrix2numpy,
-        "numpy.linalg.lstsq": lstsq, "numpy.allclose": allclose,
+        "numpy.linalg.lstsq": lstsq, "numpy.allclose": allclose, "numpy.sum": np_sum,
         "numpy.isclose": isclose, "boolmat.any": boolred("any"), "boolmat.all": boolred("all"),
         "pandas.DataFrame": dataframe, "labelledcol.bare": lambda ev, a, k: (k.all(), a[0].value)[1],
         "solmat.transpose": lambda ev, a, k: SolMatT(a[0].rows),
@@ -709,6 +760,10 @@ def _patch_binop():
     orig = sym.Ev.binop
 
     def binop(self, op, a, b, n=None, mod=None):
+        if hasattr(a, "sym_binop"):
+            return a.sym_binop(self, op, b, False, n, mod)
+        if hasattr(b, "sym_binop"):
+            return b.sym_binop(self, op, a, True, n, mod)
         if isinstance(op, ast.Div) and (isinstance(a, PathV) or isinstance(b, PathV)):
             ta = a.text if isinstance(a, PathV) else a
             tb = b.text if isinstance(b, PathV) else b
